@@ -477,6 +477,13 @@ def run(tier, seed, t0):
             for q in ("KKEEGG", "RRDDAS", "KRDEGS", "KKEEGG")]
     shards.append(("sequence", same, base_seed))
     shards.append(("sequence", list(reversed(same[:3])), base_seed + 1))
+    longcfg = dict(name="KKKEEEGG/1bin/p10/5upd/long", seq="KKKEEEGG", nbins=1, binmin=0, binmax=1, flatchk=10, flatcrit=0.9,
+                   conv=math.exp(0.04))
+    for st_ in range(3 if tier == "quick" else 8):
+        shards.append((longcfg, 0, base_seed, 70 + st_, 4000, None))
+    if tier == "thorough":
+        shards.append((dict(longcfg, name="KKEEGG/2bins[0,1]/p25/4upd/long", seq="KKEEGG", nbins=2, flatchk=25, flatcrit=0.3, conv=math.exp(0.07)),
+                       0, base_seed, 80, 6000, None))
     acc_plan = {"d<=%d" % b: sum(1 for p_ in plan if p_[2] == b) for b in (1, 2, 3)}
     acc = core.pmap(shard, shards)
     both = acc.extra.get("accepted_steps", 0) > 0 and acc.extra.get("rejected_steps", 0) > 0
@@ -495,7 +502,8 @@ def run(tier, seed, t0):
              "bin, flat-check schedule, flatness test, f <- sqrt f, H reset, stop <=> f <= threshold; completed runs: returned array, "
              "DOS/DOS_local/histogram_bins/glog/hlog/seqlog files. First 4 executions per shard and every violating one are replayed "
              "and their observation logs compared. Bin geometry alone (centres, range bins, range test) is additionally checked by "
-             "construction for every (nbins<=10, binmin, binmax on a 0.05 grid) whose width divides [0,1]. One configuration runs the same "
+             "construction for every (nbins<=10, binmin, binmax on a 0.05 grid) whose width divides [0,1]. Three (thorough: eight) long base-tape runs (1 bin, period 10, five f-updates, g > 10) exercise the log writers at values "
+             "that need more than four significant digits. One configuration runs the same "
              "machine twice (the second run judged by a fresh reference machine); four same-composition sequences (KKEEGG, RRDDAS, KRDEGS, "
              "KKEEGG) are run one after another in a freshly imported package, in both orders. non-trivial = completed runs" % (
                  len(cfgs), "base tapes per deviation bound: %r" % acc_plan),
